@@ -147,6 +147,8 @@ static void putval(Ev *ev, int ty, RegisterValueU u)
     }
     for (int i = tysize[ty] - 1; i >= 0; i--) obs(ev, (long long)((bits >> (16 * i)) & 0xffff));
 }
+static uint32_t SH = 0;      /* address shift (event abase) */
+#define UNSH(x) ((long long)(uint32_t)((uint32_t)(x) - SH))
 static long long atom2word(RegisterAtom a)
 {
     unsigned char o[2];
@@ -239,7 +241,13 @@ static RPBlockAccess srv_write(uint32_t a, size_t n, const uint16_t *buf)
 
 void adapter_exec(Ev *ev)
 {
-    if (ev_is(ev, "@")) { drop(); return; }
+    if (ev_is(ev, "@")) { drop(); SH = 0; return; }
+    if (ev_is(ev, "abase")) {
+        /* the model's address space is translation invariant: from the next tinit on, model address a is a + SH in the library */
+        SH = ((uint32_t)ev->a[0] << 16) | (uint32_t)ev->a[1];
+        obs(ev, 0);
+        return;
+    }
     if (ev_is(ev, "tinit")) {
         drop();
         int p = 0;
@@ -253,7 +261,7 @@ void adapter_exec(Ev *ev)
             A[i].skip = ev->a[p++]; A[i].hasw = ev->a[p++]; A[i].kind = ev->a[p++];
             store[i] = xblock(sizeof(RegisterAtom) * (size_t)A[i].size);
             memset(store[i], 0x77, sizeof(RegisterAtom) * (size_t)A[i].size);  /* init must zero memory areas */
-            areas[i].base = (RegisterAddress)A[i].base;
+            areas[i].base = (RegisterAddress)A[i].base + SH;
             areas[i].size = (RegisterOffset)A[i].size;
             areas[i].flags = (uint16_t)((A[i].rd ? REG_AF_READABLE : 0) | (A[i].wr ? REG_AF_WRITEABLE : 0) | (A[i].skip ? REG_AF_SKIP_DEFAULTS : 0));
             if (A[i].kind == 0) {
@@ -289,7 +297,7 @@ void adapter_exec(Ev *ev)
         for (int j = 0; j < nr; j++) {
             int ty = (int)ev->a[p++];
             entries[j].type = tymap[ty];
-            entries[j].address = (RegisterAddress)ev->a[p++];
+            entries[j].address = (RegisterAddress)ev->a[p++] + SH;
             int ck = (int)ev->a[p++];
             const long long *lo = ev->a + p; p += 4;
             const long long *hi = ev->a + p; p += 4;
@@ -361,7 +369,7 @@ void adapter_exec(Ev *ev)
                 for (int i = 0; i < na; i++)
                     for (long long k = 0; k < A[i].size; k++, o++) {
                         long long addr = A[i].base + k;
-                        if (addr == (long long)entries[h].address) { if (atom2word(store[i][k]) != x) bad++; }
+                        if (addr == UNSH(entries[h].address)) { if (atom2word(store[i][k]) != x) bad++; }
                         else if (store[i][k] != snap[o]) bad++;
                     }
             } else {
@@ -398,9 +406,9 @@ void adapter_exec(Ev *ev)
         size_t n = (size_t)ev->a[1];
         RegisterAtom *buf = n ? xblock(n * sizeof(RegisterAtom)) : xblock0();
         for (size_t i = 0; i < n; i++) buf[i] = word2atom(ev->a[2 + i]);
-        RegisterAccess r = register_block_write(&T, (RegisterAddress)ev->a[0], (RegisterOffset)n, buf);
+        RegisterAccess r = register_block_write(&T, (RegisterAddress)ev->a[0] + SH, (RegisterOffset)n, buf);
         obs(ev, bcls(r.code));
-        if (bcls(r.code) != 2) { obs(ev, r.code == REG_ACCESS_SUCCESS ? 0 : (long long)r.address); image(ev); obs(ev, -7); touchvec(ev); }
+        if (bcls(r.code) != 2) { obs(ev, r.code == REG_ACCESS_SUCCESS ? 0 : UNSH(r.address)); image(ev); obs(ev, -7); touchvec(ev); }
         if (n) xfree(buf); else xfree0(buf);
         return;
     }
@@ -408,10 +416,10 @@ void adapter_exec(Ev *ev)
         size_t n = (size_t)ev->a[1];
         RegisterAtom *buf = n ? xblock(n * sizeof(RegisterAtom)) : xblock0();
         if (n) memset(buf, 0xaa, n * sizeof(RegisterAtom));
-        RegisterAccess r = register_block_read(&T, (RegisterAddress)ev->a[0], (RegisterOffset)n, buf);
+        RegisterAccess r = register_block_read(&T, (RegisterAddress)ev->a[0] + SH, (RegisterOffset)n, buf);
         obs(ev, bcls(r.code));
         if (bcls(r.code) != 2) {
-            obs(ev, r.code == REG_ACCESS_SUCCESS ? 0 : (long long)r.address);
+            obs(ev, r.code == REG_ACCESS_SUCCESS ? 0 : UNSH(r.address));
             if (r.code == REG_ACCESS_SUCCESS) for (size_t i = 0; i < n; i++) obs(ev, atom2word(buf[i]));
         }
         if (n) xfree(buf); else xfree0(buf);
@@ -420,10 +428,10 @@ void adapter_exec(Ev *ev)
     if (ev_is(ev, "foreach")) {
         FE.n = (int)ev->a[2]; FE.k = 0; FE.nseen = 0;
         for (int i = 0; i < FE.n && i < 64; i++) FE.s[i] = ev->a[3 + i];
-        RegisterAccess r = register_foreach_in(&T, (RegisterAddress)ev->a[0], (RegisterOffset)ev->a[1], fe_cb, NULL);
+        RegisterAccess r = register_foreach_in(&T, (RegisterAddress)ev->a[0] + SH, (RegisterOffset)ev->a[1], fe_cb, NULL);
         obs(ev, cls(r.code));
         if (cls(r.code) != 2) {
-            obs(ev, r.code == REG_ACCESS_SUCCESS ? 0 : (long long)r.address);
+            obs(ev, r.code == REG_ACCESS_SUCCESS ? 0 : UNSH(r.address));
             for (int i = 0; i < FE.nseen; i++) obs(ev, FE.seen[i]);
         }
         return;
@@ -469,7 +477,7 @@ void adapter_exec(Ev *ev)
         RegisterAccess r = register_user_init(&T, fe_cb);
         obs(ev, cls(r.code));
         if (cls(r.code) != 2) {
-            obs(ev, r.code == REG_ACCESS_SUCCESS ? 0 : (long long)r.address);
+            obs(ev, r.code == REG_ACCESS_SUCCESS ? 0 : UNSH(r.address));
             for (int i = 0; i < FE.nseen; i++) obs(ev, FE.seen[i]);
         }
         return;
@@ -478,8 +486,8 @@ void adapter_exec(Ev *ev)
         size_t n = (size_t)ev->a[1];
         char *str = n ? xblock(n) : xblock0();
         for (size_t i = 0; i < n; i++) str[i] = (char)ev->a[2 + i];
-        RegisterAccess r = register_set_from_hexstr(&T, (RegisterAddress)ev->a[0], str, n);
-        obs(ev, bcls(r.code)); obs(ev, r.code == REG_ACCESS_SUCCESS ? 0 : (long long)r.address); image(ev);
+        RegisterAccess r = register_set_from_hexstr(&T, (RegisterAddress)ev->a[0] + SH, str, n);
+        obs(ev, bcls(r.code)); obs(ev, r.code == REG_ACCESS_SUCCESS ? 0 : UNSH(r.address)); image(ev);
         if (n) xfree(str); else xfree0(str);
         return;
     }
